@@ -16,7 +16,10 @@ CONSTANTS MaxReads,      \* length bound of the reader script
 ReadResults ==
   [n : {0}, e : {"nil", "eof", "err"}, toks : {0}, bad : {FALSE}, fail : {FALSE}] \cup
   [n : {1}, e : {"nil", "eof", "err"}, toks : 0..2, bad : BOOLEAN, fail : BOOLEAN]
-Scripts == UNION { [1..k -> ReadResults] : k \in 0..MaxReads }
+\* a reader that has reported EOF (with or without data) has nothing more to give: EOF can only be the last scripted result
+\* (after the script every Read returns 0, EOF). What a reader does after returning an error is its own business.
+WellBehaved(s) == \A i \in 1..(Len(s) - 1) : s[i].e # "eof"
+Scripts == { s \in UNION { [1..k -> ReadResults] : k \in 0..MaxReads } : WellBehaved(s) }
 
 VARIABLES script0,    \* the whole script (constant through a behaviour; identifies the case)
           script, rpc, lpc, ppc, cpc,
